@@ -529,7 +529,7 @@ def g_catalogue(ctx, rng, i):
     """Brute-force catalogue on pools with collections: every call with a collection operand is shadowed by the monitor."""
     dim = 2 + i % 2
     cshape = [(3,), (2,), (2, 2), (1,), (1, 3), (2, 1)][(i // 2) % 6]
-    pool = catalog.build_pool(rng, dim, cshape=cshape)
+    pool = catalog.build_pool(rng, dim, cshape=cshape, hostile_scales=(i // 12) % 2 == 1)
     specs = catalog.enumerate_calls(pool, rng, per_method_pairs=4, func_samples=30, include_scalars=False)
     # only calls that involve a collection
     specs = [s for s in specs if any(_is_tensor(o) and coll_axes(o) > 0 for o in s.operands())]
